@@ -843,3 +843,199 @@ def gen_general(seed, max_verbs=10, joins=True):
     if h not in probes:
         probes.append(h)
     return g.finish(probes)
+
+
+# ---------------------------------------------------------------------------------------------
+# property-centred families
+# ---------------------------------------------------------------------------------------------
+
+
+def gen_summarize(seed):
+    """C04: [prefix] >> group_by(keys) >> summarize(aggs) >> [suffix]."""
+    g = ProgGen(seed)
+    rng = g.rng
+    h = g.add_table("t", cols=["k", "g", "x", "y", "f", "b", "s"] + (["d"] if rng.random() < 0.3 else []))
+    h = g.chain(h, rng.randint(0, 2), {"mutate": 2, "filter": 2, "arrange": 1, "rename": 0.5, "select": 0.5}, depth=2)
+    # computed key
+    if rng.random() < 0.35:
+        sc = g.scope(h)
+        fam = rng.choice(["int", "bool", "str"])
+        e = g.eg.nonconst(fam, sc, 2)
+        st = {"in": h, "out": g.new_handle(), "verb": "mutate", "kw": [["ck", e]]}
+        if g.try_step(st):
+            h = st["out"]
+    nkeys = rng.choice([0, 1, 1, 2, 3])
+    t = g.rr.env[h]
+    vis = [(n, i) for n, i in t.vis if t.cols[i].fam in ("int", "bool", "str") and t.cols[i].name0 != "k"]
+    if nkeys and vis:
+        ks = rng.sample(vis, min(nkeys, len(vis)))
+        first = {"in": h, "out": g.new_handle(), "verb": "group_by", "cols": [cname(n) if rng.random() < 0.4 else g._ref_for(h, i, n) for n, i in ks[:1]]}
+        if g.try_step(first):
+            h = first["out"]
+            if len(ks) > 1:
+                second = {"in": h, "out": g.new_handle(), "verb": "group_by", "cols": [g._ref_for(h, i, n) for n, i in ks[1:]], "add": True}
+                if g.try_step(second):
+                    h = second["out"]
+    st = g.step_summarize(h)
+    if g.try_step(st):
+        h = st["out"]
+    mid = h
+    h = g.chain(h, rng.randint(0, 2), {"filter": 3, "mutate": 2, "arrange": 1.5, "slice_head": 0.7, "select": 1, "rename": 0.5}, depth=1)
+    probes = [mid] + ([h] if h != mid else [])
+    return g.finish(probes)
+
+
+def _ref_for(self, h, cid, name):
+    """A table reference (through some handle) to column id `cid`, else C.<name>."""
+    cands = [col(hh, n) for hh, lst in self.refs.items() for n, i in lst if i == cid]
+    return self.rng.choice(cands) if cands else cname(name)
+
+
+ProgGen._ref_for = _ref_for
+
+
+def gen_order(seed):
+    """C05: arrange chains with markers, row-preserving verbs, slice_head, window functions."""
+    g = ProgGen(seed)
+    rng = g.rng
+    h = g.add_table("t", cols=["k", "g", "x", "y", "f", "b", "s"])
+    w = {"arrange": 4, "mutate_win": 3, "mutate": 1.5, "filter": 1.5, "slice_head": 1.5, "select": 0.8, "rename": 0.8, "alias": 0.4,
+         "group_by": 0.7, "ungroup": 0.7, "mutate_agg": 0.7}
+    h = g.chain(h, rng.randint(2, 7), w, depth=1, p_total=rng.choice([0.9, 0.9, 0.5]))
+    probes = [s["out"] for s in g.steps if s["verb"] not in ("group_by", "ungroup")][-5:] or [h]
+    return g.finish(probes)
+
+
+NAME_ALPHABET = ["a", "b", "a_u", "b_u", "a_u_1", "a_right", "k"]
+
+
+def _collision_table(g, handle_name, names, nrows):
+    rng = g.rng
+    h = g.new_handle()
+    rows = []
+    for r in range(nrows):
+        row = []
+        for n in names:
+            if n == "k":
+                row.append(r + 1)
+            else:
+                row.append(None if rng.random() < 0.2 else rng.choice([1, 2, 2, 3]))
+        rows.append(row)
+    ts = {"handle": h, "name": handle_name, "schema": [[n, "Int64"] for n in names], "rows": rows, "shape": "collision"}
+    g.tables.append(ts)
+    from .drive import table_rows
+
+    g.rr.env[h] = ref.source_table(handle_name, [(n, "int") for n in names], table_rows(ts), "pol")
+    g.refs[h] = list(g.rr.env[h].vis)
+    return h
+
+
+def gen_join(seed):
+    """C06: all join kinds / predicates / name-collision configurations + reachability probes."""
+    g = ProgGen(seed)
+    rng = g.rng
+    if rng.random() < 0.45:
+        # name-collision configurations from the small alphabet
+        ln = rng.sample(NAME_ALPHABET, rng.randint(2, 5))
+        rn = rng.sample(["a", "b", "a_u", "k"], rng.randint(1, 3))
+        hl = _collision_table(g, "t", ln, rng.randint(0, 6))
+        hr = _collision_table(g, rng.choice(["u", "u", "right"]), rn, rng.randint(0, 6))
+        # hide some columns to produce visible/hidden and hidden/hidden collisions
+        for side in ("l", "r"):
+            hh = hl if side == "l" else hr
+            if rng.random() < 0.4:
+                st = g.step_select(hh)
+                if st is not None and g.try_step(st):
+                    if side == "l":
+                        hl = st["out"]
+                    else:
+                        hr = st["out"]
+    else:
+        hl = g.add_table("t", cols=["k", "g", "x", "s", "b"])
+        kind, nr = g.tg.shape()
+        if kind == "tall":
+            kind, nr = "small_dups", 9
+        hr = g.add_table("u", cols=rng.choice([["k", "g", "x", "s"], ["k", "g", "f", "s"], ["k", "y", "s"]]), shape=kind, nrows=nr)
+        hl = g.chain(hl, rng.randint(0, 2), {"mutate": 2, "filter": 2, "select": 1, "rename": 1, "alias": 0.4}, depth=1)
+        hr = g.chain(hr, rng.randint(0, 2), {"mutate": 2, "filter": 2, "select": 1, "rename": 1, "alias": 0.4}, depth=1)
+    if g.rr.env[hl].n * g.rr.env[hr].n > 40000:
+        return g.finish([hl])
+    st = None
+    for _ in range(4):
+        st = g.step_join(hl, hr)
+        if st is not None and g.try_step(st):
+            break
+        st = None
+    if st is None:
+        return g.finish([hl])
+    hj = st["out"]
+    g.features.add("join:" + st["how"])
+    probes = [hj]
+    # reachability: every column of either input (visible or hidden) through its original reference
+    kw = []
+    tj = g.rr.env[hj]
+    seen = set()
+    for hh, lst in list(g.refs.items()):
+        if hh == hj:
+            continue
+        for n, i in lst:
+            if i in tj.cols and i not in seen and rng.random() < 0.7:
+                seen.add(i)
+                kw.append([f"p{len(kw)}", col(hh, n)])
+    if kw:
+        pst = {"in": hj, "out": g.new_handle(), "verb": "mutate", "kw": kw[:8]}
+        if g.try_step(pst):
+            probes.append(pst["out"])
+    # sometimes a self join / second join on top
+    if rng.random() < 0.3:
+        al = {"in": hr, "out": g.new_handle(), "verb": "alias", "keep": False, "name": "w2"}
+        if g.try_step(al):
+            st2 = g.step_join(hj, al["out"])
+            if st2 is not None and g.rr.env[hj].n * g.rr.env[al["out"]].n <= 40000 and g.try_step(st2):
+                probes.append(st2["out"])
+    h = g.chain(probes[-1], rng.randint(0, 2), {"mutate": 2, "filter": 2, "select": 1, "arrange": 1}, depth=1)
+    if h not in probes:
+        probes.append(h)
+    return g.finish(probes)
+
+
+def gen_union(seed):
+    """C07: unions with permuted column order, hidden columns, duplicates, empties, chains."""
+    g = ProgGen(seed)
+    rng = g.rng
+    cols = rng.choice([["k", "g", "x"], ["g", "x", "s"], ["g", "b"], ["x", "s", "b", "g"]])
+    shapes = [g.tg.shape() for _ in range(3)]
+    hs = []
+    for i, (kind, nr) in enumerate(shapes[: rng.choice([2, 2, 3])]):
+        if kind == "tall":
+            kind, nr = "small_dups", rng.randint(2, 9)
+        extra = rng.sample(["y", "f", "h"], rng.randint(0, 2))
+        cs = list(cols) + extra
+        rng.shuffle(cs)
+        h = g.add_table(["t", "u", "v"][i], cols=cs, shape=kind, nrows=nr)
+        # verbs before the union; hidden columns arise from the final select
+        h = g.chain(h, rng.randint(0, 2), {"mutate": 2, "filter": 2, "rename": 0.3}, depth=1)
+        t = g.rr.env[h]
+        want = [c for c in cols if c in t.names()]
+        if len(want) != len(cols):
+            return g.finish([h])
+        order = list(cols)
+        if i > 0:
+            rng.shuffle(order)
+        st = {"in": h, "out": g.new_handle(), "verb": "select", "cols": [cname(c) for c in order]}
+        if not g.try_step(st):
+            return g.finish([h])
+        hs.append(st["out"])
+    h = hs[0]
+    probes = []
+    for r in hs[1:]:
+        st = g.step_union(h, r)
+        if not g.try_step(st):
+            break
+        h = st["out"]
+        probes.append(h)
+        g.features.add("union")
+    h2 = g.chain(h, rng.randint(0, 2), {"filter": 2, "mutate": 2, "mutate_agg": 1, "arrange": 1, "group_by": 0.5, "summarize": 1, "select": 0.7}, depth=1)
+    if h2 not in probes:
+        probes.append(h2)
+    return g.finish(probes or [h])
